@@ -289,8 +289,9 @@ func (app *App) addPrefixToRoute(prefix string, route *Route) *Route {
 	route.routeParser = parseRoute(prettyPath, app.customConstraints...)
 	// the parameters of the prefix belong to the route as well
 	route.Params = parseRoute(prefixedPath, app.customConstraints...).params
-	route.root = false
-	route.star = false
+	// same flags as a route registered directly under the prefixed path (mounting at "/" keeps "/" and "/*")
+	route.root = route.path == "/"
+	route.star = route.path == "/*"
 
 	return route
 }
